@@ -60,6 +60,24 @@ pub fn insert_row_bad<const C: usize, const R: usize, const N: usize, const L: u
     kani::cover!(true, "RETURNED-NORMALLY");
 }
 
+/// empty array, any row length, non-zero index: must panic
+pub fn insert_row_bad_empty<const L: usize>() {
+    let mut t: TooDee<u8> = TooDee::default();
+    let row: [u8; L] = kani::any();
+    let idx: usize = kani::any();
+    kani::assume(idx >= 1 && idx <= 3);
+    t.insert_row(idx, row);
+    kani::cover!(true, "RETURNED-NORMALLY");
+}
+pub fn insert_col_bad_empty<const L: usize>() {
+    let mut t: TooDee<u8> = TooDee::default();
+    let col: [u8; L] = kani::any();
+    let idx: usize = kani::any();
+    kani::assume(idx >= 1 && idx <= 3);
+    t.insert_col(idx, col);
+    kani::cover!(true, "RETURNED-NORMALLY");
+}
+
 // ---------------------------------------------------------------- insert_col (C06, C01)
 pub fn insert_col_ok<const C: usize, const R: usize, const N: usize>() {
     let (mut t, a) = mk::<N>(C, R);
@@ -305,6 +323,29 @@ pub fn drops_history<const C: usize, const R: usize>() {
     all_dropped_once(C * R + C + R + 1);
 }
 
+/// remove_col consumed through the provided/overridden iterator adaptors `nth` / `nth_back`:
+/// skipped elements must still be dropped exactly once.
+pub fn drops_drain_nth<const C: usize, const R: usize>() {
+    {
+        let mut t = TooDee::from_vec(C, R, toks(C * R, 0));
+        let rc: usize = kani::any();
+        kani::assume(rc < C);
+        let k: usize = kani::any();
+        kani::assume(k <= R);
+        {
+            let mut d = t.remove_col(rc);
+            if kani::any() {
+                let _x = d.nth(k);
+            } else {
+                let _x = d.nth_back(k);
+            }
+            let _y = d.next();
+        }
+        assert!(wf(&t));
+    }
+    all_dropped_once(C * R);
+}
+
 // ---------------------------------------------------------------- caller code observing the array mid-operation (C11)
 /// An iterator that, on every call, looks at the array it is being inserted into through a raw
 /// pointer and asserts what an observer of a caught panic at this point would see: the shape
@@ -321,9 +362,16 @@ impl<const L: usize> Spy<L> {
         let t = unsafe { &*self.t };
         assert!(wf(t), "C11 shape invariant at a call into caller code");
         // every reachable cell must be readable
-        let mut s: u32 = 0;
-        for c in t.data().iter() {
-            s = s.wrapping_add(*c as u32);
+        let d = t.data();
+        let mut i = 0;
+        while i < d.len() {
+            let mut j = i + 1;
+            while j < d.len() {
+                // the arrays handed to the spy harnesses hold pairwise distinct cells
+                assert!(d[i] != d[j], "C11 an element is reachable through two cells");
+                j += 1;
+            }
+            i += 1;
         }
         assert!(t.rows().len() == t.num_rows());
     }
@@ -362,29 +410,39 @@ impl<const L: usize> ExactSizeIterator for Spy<L> {
     }
 }
 
+fn mk_distinct<const N: usize>(c: usize, r: usize) -> TooDee<u8> {
+    let mut a = [0u8; N];
+    let mut i = 0;
+    while i < N {
+        a[i] = 100 + i as u8;
+        i += 1;
+    }
+    TooDee::from_vec(c, r, a.to_vec())
+}
+
 pub fn spy_insert_row<const C: usize, const R: usize, const N: usize>() {
-    let (mut t, _a) = mk::<N>(C, R);
+    let mut t = mk_distinct::<N>(C, R);
     let idx: usize = kani::any();
     kani::assume(idx <= R);
-    let spy = Spy::<C> { t: &t as *const _, items: kani::any(), front: 0, back: 0, reported: C };
+    let spy = Spy::<C> { t: &t as *const _, items: [1u8; C], front: 0, back: 0, reported: C };
     t.insert_row(idx, spy);
     assert!(wf(&t));
 }
 pub fn spy_insert_col<const C: usize, const R: usize, const N: usize>() {
-    let (mut t, _a) = mk::<N>(C, R);
+    let mut t = mk_distinct::<N>(C, R);
     let idx: usize = kani::any();
     kani::assume(idx <= C);
-    let spy = Spy::<R> { t: &t as *const _, items: kani::any(), front: 0, back: 0, reported: R };
+    let spy = Spy::<R> { t: &t as *const _, items: [1u8; R], front: 0, back: 0, reported: R };
     t.insert_col(idx, spy);
     assert!(wf(&t));
 }
 /// lying iterator: reports `reported` but yields L items; whatever happens (panic or return) the
 /// spy's look() has checked every call point; on return the array must be well-formed.
 pub fn spy_insert_row_lying<const C: usize, const R: usize, const N: usize, const L: usize>() {
-    let (mut t, _a) = mk::<N>(C, R);
+    let mut t = mk_distinct::<N>(C, R);
     let idx: usize = kani::any();
     kani::assume(idx <= R);
-    let spy = Spy::<L> { t: &t as *const _, items: kani::any(), front: 0, back: 0, reported: C };
+    let spy = Spy::<L> { t: &t as *const _, items: [1u8; L], front: 0, back: 0, reported: C };
     t.insert_row(idx, spy);
     assert!(wf(&t));
 }
@@ -441,6 +499,11 @@ h!(k_insert_col_empty_3, insert_col_into_empty, 3);
 hp!(k_insert_col_bad_2x2_len2, insert_col_bad, 2, 2, 4, 2);
 hp!(k_insert_col_bad_2x2_len1, insert_col_bad, 2, 2, 4, 1);
 hp!(k_insert_col_bad_2x2_len3, insert_col_bad, 2, 2, 4, 3);
+hp!(k_insert_col_bad_3x2_len1, insert_col_bad, 3, 2, 6, 1);
+hp!(k_insert_row_bad_empty_0, insert_row_bad_empty, 0);
+hp!(k_insert_row_bad_empty_2, insert_row_bad_empty, 2);
+hp!(k_insert_col_bad_empty_0, insert_col_bad_empty, 0);
+hp!(k_insert_col_bad_empty_2, insert_col_bad_empty, 2);
 
 h!(k_remove_col_ok_2x2, remove_col_ok, 2, 2, 4);
 h!(k_remove_col_ok_3x2, remove_col_ok, 3, 2, 6);
@@ -460,6 +523,9 @@ h!(k_remove_col_forget_1x2, remove_col_forget, 1, 2, 2);
 hl!(k_drops_history_2x2, drops_history, 2, 2);
 h!(k_drops_history_1x2, drops_history, 1, 2);
 h!(k_drops_history_2x1, drops_history, 2, 1);
+
+hl!(k_drops_drain_nth_2x2, drops_drain_nth, 2, 2);
+hl!(k_drops_drain_nth_2x3, drops_drain_nth, 2, 3);
 
 h!(k_spy_insert_row_2x2, spy_insert_row, 2, 2, 4);
 h!(k_spy_insert_row_3x2, spy_insert_row, 3, 2, 6);
